@@ -1,4 +1,5 @@
 import CprocVerif.Lemmas.InitRefSim1
+import CprocVerif.Lemmas.InitRefDesig
 
 /-!
 # The simulation statements and the lemmas shared by their proofs
@@ -17,7 +18,6 @@ def HeadPlain (its : Items) : Prop := ∃ i r, its = .cons [] i r
 structure After (m : Nat) (st st' : St) (rest' : Items) : Prop where
   frame : Frame m st st'
   le : m ≤ st'.sub
-  plain : Plain st'
   curok : CurOK st'
   ty : (st'.obj m).ty = (st.obj m).ty
   off : (st'.obj m).offset = (st.obj m).offset
@@ -30,40 +30,47 @@ def BodyRun (pf : Nat) (st : St) (ini : Ini) (st1 : St) : Prop :=
 
 def PInit (f : Nat) : Prop :=
   ∀ pl ini rest rst rest' rst', initOne f pl ini rest rst = .ok (rest', rst') → rst'.nswitch = rst.nswitch →
-    PlWf pl → okI ini = true → okIs rest = true →
-  ∀ st st1 stf pf c, st.cur = some c → c < st.sub → Plain st → CurOK st → (st.obj st.sub).iscur = false →
+    PlWf pl →
+  ∀ st st1 stf pf c, st.cur = some c → c < st.sub → CurOK st → (st.obj st.sub).iscur = false →
     SP st st.sub pl → LogEq st rst → BodyRun pf st ini st1 → Run st1 rest stf →
   ∃ st', Run st' rest' stf ∧ After st.sub st st' rest' ∧ LogEq st' rst'
 
 def PCont (f : Nat) : Prop :=
   ∀ pl pos its rst rest' rst', contAgg f pl (pos + 1) its rst = .ok (rest', rst') → rst'.nswitch = rst.nswitch →
-    PlWf pl → okIs its = true →
-  ∀ st stf k c ch, st.cur = some c → c < k → k < st.sub → Plain st → CurOK st → Lvl st k pl pos ch →
+    PlWf pl →
+  ∀ st stf k c ch, st.cur = some c → c < k → k < st.sub → CurOK st → Lvl st k pl pos ch →
     (HeadPlain its → ∀ j, k < j → j < st.sub → Exh st j) → LogEq st rst → Run st its stf →
   ∃ st', Run st' rest' stf ∧ After k st st' rest' ∧ k < st'.sub ∧ LogEq st' rst'
 
 def PBraced (f : Nat) : Prop :=
   ∀ pl its rst rst', braced f pl its rst = .ok rst' → rst'.nswitch = rst.nswitch →
-    PlWf pl → okIs its = true → its ≠ .nil →
-  ∀ st st5, (∀ c, st.cur = some c → c < st.sub) → Plain st → CurOK st → (st.obj st.sub).iscur = false →
+    PlWf pl → its ≠ .nil →
+  ∀ st st5, (∀ c, st.cur = some c → c < st.sub) → Flat st st.sub → CurOK st → (st.obj st.sub).iscur = false →
     SP st st.sub pl →
     ImgEq (st.log.map evWrite) (if isScalarTy pl.ty then rst.log else (zeroed rst pl).log) →
     listBody st its = .ok st5 →
-  LogEq st5 rst' ∧ Frame st.sub st st5 ∧ st5.sub = st.sub ∧ Plain st5 ∧
+  LogEq st5 rst' ∧ Frame st.sub st st5 ∧ st5.sub = st.sub ∧
     (st5.obj st.sub).ty = (st.obj st.sub).ty ∧ (st5.obj st.sub).offset = (st.obj st.sub).offset
 
 def PLoop (f : Nat) : Prop :=
   ∀ pl pos its rst rst', loopB f pl pos its rst = .ok rst' → rst'.nswitch = rst.nswitch →
-    PlWf pl → okIs its = true →
-  ∀ st stf c, st.cur = some c → Plain st → CurOK st → (st.obj c).ty = pl.ty → (st.obj c).offset = pl.off →
+    PlWf pl →
+  ∀ st stf c, st.cur = some c → Flat st c → CurOK st → (st.obj c).ty = pl.ty → (st.obj c).offset = pl.off →
     (pos = 0 → st.sub = c ∧ ZeroReg rst.log pl.off pl.ty.size) →
     (∀ p, pos = p + 1 → c < st.sub ∧ (∃ ch, Lvl st c pl p ch) ∧
       (HeadPlain its → ∀ j, c < j → j < st.sub → Exh st j)) →
     LogEq st rst → Run st its stf →
-  LogEq stf rst' ∧ Frame c st stf ∧ Plain stf ∧ (stf.obj c).ty = (st.obj c).ty ∧
+  LogEq stf rst' ∧ Frame c st stf ∧ (stf.obj c).ty = (st.obj c).ty ∧
     (stf.obj c).offset = (st.obj c).offset
 
-def PAll (f : Nat) : Prop := PInit f ∧ PCont f ∧ PBraced f ∧ PLoop f
+def PDesig (f : Nat) : Prop :=
+  ∀ pl ps ds i rest rst rest' rst', desigPath f pl ps ds i rest rst = .ok (rest', rst') →
+    rst'.nswitch = rst.nswitch → PlWf pl →
+  ∀ st st1 stf m c, DRel st m pl ps ds → st.cur = some c → c < m → CurOK st →
+    (st.obj st.sub).iscur = false → LogEq st rst → BodyRun 34 st i st1 → Run st1 rest stf →
+  ∃ st', Run st' rest' stf ∧ After m st st' rest' ∧ LogEq st' rst'
+
+def PAll (f : Nat) : Prop := PInit f ∧ PCont f ∧ PBraced f ∧ PLoop f ∧ PDesig f
 
 /-! ## helpers -/
 
@@ -110,7 +117,7 @@ theorem braceClear_fields (st : St) :
   split <;> split <;> exact ⟨rfl, rfl, rfl, rfl, rfl⟩
 
 /-- `initclear` at an opening brace against `zeroIfDirty` -/
-theorem braceClear_logEq {st : St} {rst : RSt} {pl : Place} {c : Nat} (hc : st.cur = some c) (hp : Plain st)
+theorem braceClear_logEq {st : St} {rst : RSt} {pl : Place} {c : Nat} (hc : st.cur = some c) (hp : Flat st st.sub)
     (hw : PlWf pl) (hty : (st.obj st.sub).ty = pl.ty) (hoff : (st.obj st.sub).offset = pl.off) (h : LogEq st rst) :
     ImgEq ((braceClear st).log.map evWrite) (if isScalarTy pl.ty then rst.log else (zeroed rst pl).log) := by
   cases hs : isScalarTy pl.ty with
@@ -129,7 +136,7 @@ theorem headPlain_nil : ¬ HeadPlain .nil := by
 
 /-- the three ways an expression is stored at the cursor (`add:`) -/
 theorem leaf_add {st st1 : St} {pl : Place} {e : Expr} {v : Val} {pf : Nat} {rst : RSt} {rest : Items} {sz : Nat}
-    (hh : hit st e = .ok (.add v, st)) (hsp : SP st st.sub pl) (hp : Plain st) (hc : CurOK st)
+    (hh : hit st e = .ok (.add v, st)) (hsp : SP st st.sub pl) (hp : Flat st st.sub) (hc : CurOK st)
     (hsz : (st.obj st.sub).ty.size = sz) (hl : LogEq st rst) (hb : exprBody pf st e = .ok st1) :
     After st.sub st st1 rest ∧ LogEq st1 (wr rst ⟨pl.off, pl.off + sz, pl.before, pl.after, v⟩) := by
   cases pf with
@@ -138,7 +145,7 @@ theorem leaf_add {st st1 : St} {pl : Place} {e : Expr} {v : Val} {pf : Nat} {rst
     have hbits : curBits st = .ok (pl.before, pl.after) := hsp.bits
     rw [exprBody_add pf hh hbits hp] at hb
     cases hb
-    refine ⟨⟨⟨rfl, rfl, rfl, fun _ _ => rfl⟩, Nat.le_refl _, ⟨hp.inc, hp.top⟩, hc, rfl, rfl, ?_⟩, ?_⟩
+    refine ⟨⟨⟨rfl, rfl, rfl, fun _ _ => rfl⟩, Nat.le_refl _, hc, rfl, rfl, ?_⟩, ?_⟩
     · intro _ j h1 h2
       have : (addSt st pl.before pl.after v).sub = st.sub := rfl
       omega
